@@ -18,7 +18,7 @@ def add(pid, engine, cat, text, note, tech, ref, thorough=True):
         c["thorough_cmd"] = f"./check {pid} --tier thorough"
     checks.append(c)
 
-pico_note = ("Trusted: the harness's reference evaluator and ideal-engine model (mc/pico_mc/src/model.rs, ~200 lines), the 13-function "
+pico_note = ("Trusted: the harness's reference evaluator and ideal-engine model (mc/pico_mc/src/model.rs, ~200 lines), the 15-function "
              "harness program as representative of #[memo] usage, the small key space (2 keyed sources x 3 values, 1 singleton, 1 tracked map), "
              "LRU capacity 1-2. Bounded by history depth (reported in evidence).")
 add("C01", "pico_mc", "model_checking",
@@ -55,7 +55,7 @@ add("C19", "fs_mc", "fault_enumeration",
 
 lang_note = ("Trusted: the reference grammar mc/core/src/isogen.rs (enumerator of literal shapes; names and values from tiny alphabets), token budgets reported in evidence.")
 add("C07", "lang_mc", "exploration",
-    "Every sentence of a reference grammar of iso literals up to N tokens, every token-level prefix of a sentence extended by each token of a 39-token alphabet (keywords, punctuators, strings incl. non-BMP and unterminated, block strings, numbers incl. out-of-range/leading-zero/float forms, junk), and every single separator deviation, is parsed by the real parser with and without export name at two file offsets; no panic, Ok xor one diagnostic, every span of the AST (found in its Debug rendering), of the semantic tokens and of the diagnostic inside the literal on char boundaries, tokens strictly increasing.",
+    "Every sentence of a reference grammar of iso literals up to N tokens, every token-level prefix of a sentence extended by each token of a 39-token alphabet (keywords, punctuators, strings incl. non-BMP and unterminated, block strings, numbers incl. out-of-range/leading-zero/float forms, junk), every single separator deviation, every value token replaced by each of 14 other value forms, and six long witness literals (directives with arguments) with every token replaced by every alphabet token, is parsed by the real parser with and without export name at two file offsets; no panic, Ok xor one diagnostic, every span of the AST (found in its Debug rendering), of the semantic tokens and of the diagnostic inside the literal on char boundaries, tokens strictly increasing.",
     lang_note, "bounded exhaustive grammar-directed input enumeration on the real parser", "2/C07")
 add("C31", "lang_mc", "exploration",
     "Every text over {a, é, newline} up to length L x every non-empty span on char boundaries x outer offsets x colour modes through the real text_with_carats; the output must be a window of a reference excerpt with one caret per character and the reported row must be the start line.",
@@ -72,17 +72,17 @@ add("C08", "comp_mc", "exploration",
     "Every program of the families (general, arguments, abstract types, cycles: every pair of selection sets for two client fields that may select themselves and each other, parameterised client fields, overlap, pointers, declaration shapes) every generated schema of a product of structural dimensions (root type names, shape of id, Node interface, union / interfaces, seven @exposeField forms, nested lists, recursive input objects: 5376 schemas with adapted programs), plus every single-token mutation (delete / duplicate / replace by each of 14 tokens; quick: delete only) of every iso literal and of the schema and extension of the checked-in demo projects, is compiled by the real batch compiler in a crash-isolated worker process; a panic, abort, stack overflow or a failure without diagnostics is a violation, attributed to the exact program.",
     comp_note, "bounded exhaustive program enumeration on the real compiler with process-level crash isolation", "2/C08")
 add("C09", "comp_mc", "exploration",
-    "For every accepted program of the families, every query_text / refetch query_text artifact is evaluated to the string the runtime reads (swc, cooked string) and validated against the schema: parses (relay graphql-syntax), fields exist, leaf/composite shape, arguments defined/required/coercible, variables declared/used/compatible (also inside object values), fragment conditions applicable, response names mergeable.",
+    "For every accepted program of the families, every query_text / refetch query_text artifact is evaluated to the string the runtime reads (swc, cooked string) and validated against the schema: parses (relay graphql-syntax), fields exist, leaf/composite shape, arguments defined/required/coercible, variables declared/used/compatible (also inside object values), fragment conditions applicable, response names mergeable, default values of the right type, integers within 32 bits. Accepted near-miss variants of every program (first argument given twice, a default value of the wrong type, an integer literal outside 32 bits) are compiled too: if the compiler accepts one, its operations must validate as well. The three checked-in demo projects are validated against their own schemas.",
     comp_note + " Validator mc/comp_mc/src/gql.rs is the trusted base (no independent GraphQL implementation in the sandbox).", "bounded exhaustive program enumeration + reference validator", "2/C09")
 add("C13", "comp_mc", "exploration",
-    "For every accepted program of the families, every .ts artifact is parsed as a TypeScript module by swc_ecma_parser, every .json by serde_json, and every relative import is resolved against the generated artifact set.",
+    "For every accepted program of the families, every .ts artifact is parsed as a TypeScript module by swc_ecma_parser, every .json by serde_json, and every relative import is resolved against the generated artifact set; every accepted program again under an all-options configuration and over the schema with hostile descriptions (comment terminators, quotes, backslashes, template syntax), small programs under ten option sets; the three demo projects.",
     comp_note + " swc is the syntax oracle (no tsc).", "bounded exhaustive program enumeration + TypeScript parser as oracle", "2/C13")
 
 add("C11", "comp_mc", "exploration",
-    "For every accepted program of the families, each (operation text, normalization AST) pair of the entrypoint and of every refetch query is projected to one canonical selection tree (field, ordered arguments with canonical values, inline fragment type, nesting) and compared; concreteType must be a string exactly for object-typed fields.",
+    "For every accepted program of the families, each (operation text, normalization AST) pair of the entrypoint and of every refetch query is projected to one canonical selection tree (field, ordered arguments with canonical values, inline fragment type, nesting) and compared; concreteType must be a string exactly for object-typed fields. Also for the three checked-in demo projects.",
     comp_note, "bounded exhaustive program enumeration + structural comparison of two artifacts", "2/C11")
 add("C14", "comp_mc", "exploration",
-    "For every program of the families (accepted and rejected): repeated compiles in fresh compiler states and every partition of its literals into <= 3 files under 10 file-name assignments (different sort orders, a sub-directory); artifacts byte-identical modulo the source path, diagnostics identical modulo path/position. Process hash seeds are exercised by repetition and per-process workers, not enumerated (stated in the evidence).",
+    "For every program of the families (accepted and rejected): repeated compiles in fresh compiler states and every partition of its literals into <= 3 files under 10 file-name assignments (different sort orders, a sub-directory); artifacts byte-identical modulo the source path, diagnostics identical modulo path/position; every program also as one file per literal compiled three times with artifacts and complete diagnostics compared byte for byte (duplicate definitions across files, cycles). Process hash seeds are exercised by repetition and per-process workers, not enumerated (stated in the evidence).",
     comp_note + " The 128-bit hash-seed space is not enumerable.", "exhaustive enumeration of file layouts per program + repetition for hash seeds", "2/C14")
 add("C15", "comp_mc", "exploration",
     "Metamorphic, exhaustive per accepted base program: every permutation of every selection set, every duplication of one plain server selection under a fresh alias, every extraction of a contiguous variable-free run into a new client field selected at the same place; the entrypoint's operation text, normalization AST and refetch artifacts must be byte-identical to the base.",
@@ -91,14 +91,14 @@ add("C17", "comp_mc", "exploration",
     "Every accepted program P x 20 single-error invalid variants Q (one error class each: parse error, undefined field / entrypoint / variable / argument / parent type / pointer target / variable type, duplicate selection, duplicate field or pointer definition in the same or a new file, unknown or misplaced directive, scalar/object shape, missing required argument, entrypoint on a non-fetchable type, schema syntax error, schema referencing an undefined type) x {fresh batch compile, watch-mode recompile in the same compiler state through update_sources}: the compile must report errors and a snapshot of the artifact directory (paths, bytes, mtimes, directories) must be unchanged.",
     comp_note, "exhaustive (valid, invalid) program pair enumeration with directory snapshots", "2/C17")
 add("C26", "comp_mc", "exploration",
-    "Every accepted program x {md5, sha256} x {extra info} x {default/custom file name}: every operationId found in any artifact (swc evaluation) is a key of the documents file and equals the configured hash of the recorded text; the recorded text tokenises to the plain build's operation; file keys = referenced ids; every operation of the plain build is persisted.",
+    "Every accepted program x {md5, sha256} x {extra info} x {default/custom file name}: every operationId found in any artifact (swc evaluation) is a key of the documents file and equals the configured hash of the recorded text; the recorded text tokenises to the plain build's operation; file keys = referenced ids; every operation of the plain build is persisted. Also for the three demo projects with md5 / sha256 x extra info.",
     comp_note, "exhaustive program x configuration enumeration with hash recomputation", "2/C26")
 
 add("C12", "comp_mc", "exploration",
     "(a) Every (field, argument list of length <= 2) over a value alphabet (variables, integers incl. negative, booleans, null, strings incl. all 2-character strings over {a, space, _, -, é} and quotes, nested objects): keys built by the real parser + to_alias_str_chunk; for every pair equal key <=> equal (field, args); every key a GraphQL Name; each key equal to what the REAL runtime functions (cut out of cache.ts by swc spans, type annotations blanked, run under node) compute from the normalization node. (b) Every field of every generated operation: alias in the query text = runtime key of the corresponding normalization AST node.",
     comp_note + " Runtime binding: getNetworkResponseKey/getArgumentValueChunk executed as found in cache.ts.", "exhaustive pairwise enumeration + execution of the real TypeScript runtime functions under node", "2/C12")
 add("C16", "comp_mc", "exploration",
-    "Every well-typed generated program must compile; every single-fault mutant of every program (undefined field, object without / scalar with selection set, undefined argument, missing required argument, incompatible literal or variable type incl. nullability and input-object fields, undeclared / unused variable, duplicate response name; one fault at one position) must be rejected with a diagnostic.",
+    "Every well-typed generated program must compile; every single-fault mutant of every program (undefined field, object without / scalar with selection set, undefined argument, missing required argument, incompatible literal or variable type incl. nullability and input-object fields, list-typed variables, arguments of client fields, undeclared / unused variable, duplicate response name; one fault at one position) must be rejected with a diagnostic.",
     comp_note + " Mutants break exactly one rule by construction; the menus' type-correctness is cross-checked by C09's validator.", "exhaustive single-fault mutant enumeration on the real compiler", "2/C16")
 
 add("C27", "comp_mc", "exploration",
